@@ -101,6 +101,9 @@ def plan(crate_j):
         used = set()
         for m in sorted(missing):
             cands = [a for a in added if a not in used and _parent(a) == _parent(m) and cur[a].get("sig") == mine[m]]
+            if not cands:
+                # moved to another module / impl block of the same crate under the same name
+                cands = [a for a in added if a not in used and a.rsplit("::", 1)[-1] == m.rsplit("::", 1)[-1] and cur[a].get("sig") == mine[m]]
             if len(cands) == 1:
                 a = cands[0]
                 used.add(a)
